@@ -1,4 +1,4 @@
-(* Proofs/RotationBlockP.v — general rotations for the OVERLAP BLOCK of the list-level model (property C12).
+(* Proofs/RotationBlockP.v — general rotations for the OVERLAP and KINETIC-ENERGY BLOCKS of the list-level model (C12).
 
    Proofs/RotationP.v proves the covariance of the primitive specification, the representation matrix of R being read
    off the entries of the multiplied-out polynomial (R^T u)^a.  Here
@@ -16,6 +16,10 @@
            dfnorm(ja) dfnorm(jb) S[ma, ja, mb, jb]
              = sum_ia sum_ib Ma[ia, ja] Mb[ib, jb] dfnorm(ia) dfnorm(ib) S'[ma, ia, mb, ib]
         S = overlap_block sa sb, S' = overlap_block (rot_shell R sa) (rot_shell R sb).
+
+     kinetic_block_rotation_law : the same sentence for [kinetic_block] (KineticEnergyIntegral); both are instances of
+        [block_rotation_law_generic] (any kernel whose block entries are contracted primitive values obeying the
+        primitive matrix law).
 
    This is the conclusion of [RigidP.rotation_law_overlap] word for word; the hypotheses are those of
    [rotation_law_overlap] plus the two of the block theorem [CoreBlockP.overlap_block_correct] it goes through:
